@@ -48,7 +48,9 @@
 //!   numbers inside LuaPropertyId(..) / ModuleNodeId(..) are masked (allocator-dependent); for RESTORE the bare u32
 //!   ids of vfs.file_id_map / vfs.file_path_map are renamed new -> old as well.
 use emmylua_code_analysis::{EmmyLuaAnalysis, Emmyrc, FileId, file_path_to_uri};
+use lsp_types::Uri;
 use std::path::PathBuf;
+use std::str::FromStr;
 use std::sync::Arc;
 
 const ROOT: &str = "/vp_c10t";
@@ -72,13 +74,13 @@ const fn p(body: &'static str) -> Part {
 
 const BLOCKS: &[Block] = &[
     Block { name: "partial-class-two-supers", parts: &[
-        p("---@class (partial) PA: PSuper0\n---@field px integer\nlocal PA = {}\nfunction PA.p0() end\n"),
-        p("---@class (partial) PA: PSuper1\n---@field py string\nlocal PA2 = {}\n---@type PA\nlocal pa_inst\nlocal pa_b0 = pa_inst.base0\nlocal pa_px = pa_inst.px\n"),
+        p("--- partial doc {mk}\n---@class (partial) PA: PSuper0\n---@field px integer\nlocal PA = {}\nfunction PA.p0() end\n"),
+        p("--- other half {mk}\n---@class (partial) PA: PSuper1\n---@field py string\nlocal PA2 = {}\n---@type PA\nlocal pa_inst\nlocal pa_b0 = pa_inst.base0\nlocal pa_px = pa_inst.px\n"),
         p("---@class PSuper0\n---@field base0 integer\n---@class PSuper1\n---@field base1 integer\n"),
     ] },
     Block { name: "duplicate-class-two-supers", parts: &[
         p("---@class DA: DSuper0\n---@field dx integer\n"),
-        p("---@class DA: DSuper1\n---@field dy string\n---@class DSuper0\n---@field dbase0 integer\n---@class DSuper1\n---@field dbase1 integer\n---@type DA\nlocal da_inst\nlocal da_v = da_inst.dbase0\n"),
+        p("--- dup doc {mk}\n---@class DA: DSuper1\n---@field dy string\n---@class DSuper0\n---@field dbase0 integer\n---@class DSuper1\n---@field dbase1 integer\n---@type DA\nlocal da_inst\nlocal da_v = da_inst.dbase0\n"),
     ] },
     Block { name: "alias-enum-generic", parts: &[
         p("---@alias AL1 integer|string\n---@alias AL2\n---| \"al_a\" # first\n---| \"al_b\"\n---@enum EN1\nEN1 = { A = 1, B = 2 }\n---@enum (key) EN2\nlocal EN2 = { k1 = 1, k2 = 2 }\n---@class GC<T>\n---@field v T\n---@generic T\n---@param x T\n---@return GC<T>\nfunction mkgc(x) end\n"),
@@ -141,8 +143,8 @@ const BLOCKS: &[Block] = &[
         p("---@type LT\nlocal lt\nlocal lt_f = lt.lf\nlocal lt2 = mklt()\nlocal lt2_f = lt2.lf\n---@type { a: integer, b: LT }\nlocal obj\n---@type table<string, LT>\nlocal tbl\n---@type [integer, LT]\nlocal tup\n---@cast lt LT?\n"),
     ] },
     Block { name: "properties", parts: &[
-        p("---@class PR\nPR = {}\n---@deprecated use other\n---@nodiscard\n---@async\n---@return integer\nfunction PR.dep() end\n---@private\nPR.priv = 1\n---@version >5.1\n---@source file:///x.c#10\nfunction PR.ver() end\n"),
-        p("--- description of more\n---@protected\nfunction PR.more() end\n---@deprecated\nPR.old = 1\nlocal pr_d = PR.dep()\nlocal pr_o = PR.old\n---@readonly\nPR.ro = 1\n"),
+        p("---@class PR\nPR = {}\n---@deprecated {mk} use other\n---@nodiscard\n---@async\n---@return integer\nfunction PR.dep() end\n---@private\nPR.priv = 1\n---@version >5.1\n---@source file:///x.c#10\nfunction PR.ver() end\n"),
+        p("--- description of more {mk}\n---@protected\nfunction PR.more() end\n---@deprecated\nPR.old = 1\nlocal pr_d = PR.dep()\nlocal pr_o = PR.old\n---@readonly\nPR.ro = 1\n"),
     ] },
     Block { name: "closures-and-calls", parts: &[
         p("---@param cb fun(a: integer): string\nfunction takes_cb(cb) end\n---@generic T\n---@param f fun(): T\n---@return T\nfunction run(f) return f() end\nlocal function lf1() return 1 end\nlocal lf2 = function() return lf1() end\n"),
@@ -152,6 +154,15 @@ const BLOCKS: &[Block] = &[
         p("---@class IBase\n---@field ib integer\nIBase = {}\nfunction IBase:base_m() return self.ib end\n"),
         p("---@class IDer: IBase\n---@field id_ string\nIDer = {}\nfunction IDer:der_m() return self:base_m() end\n---@type IDer\nlocal ider\nlocal ider_b = ider.ib\n"),
         p("---@class IDer2: IDer\n---@type IDer2\nlocal ider2\nlocal ider2_b = ider2.ib\nlocal ider2_m = ider2:der_m()\n"),
+    ] },
+    Block { name: "shared-type-property", parts: &[
+        p("--- widget base {mk}\n---@class (partial) SP\n---@field sid integer\n--- alias doc {mk}\n---@alias SPA integer\n"),
+        p("---@deprecated {mk} use SP2\n--- extension notes {mk}\n---@see SP2 {mk}\n---@class (partial) SP\n---@field sextra string\n"),
+        p("---@type SP\nlocal sp_w\n---@type SPA\nlocal sp_a\n"),
+    ] },
+    Block { name: "globals-repeated-in-one-file", parts: &[
+        p("function rg_f() RFlag = 1 end\nfunction rg_g() RFlag = 2 end\nRTop = 1\nRTop = 2\ndo RTop = 3 end\nfunction rg_k() RTop = 4 end\n"),
+        p("RFlag = 5\nlocal rg_u = RFlag\nfunction rg_h() RFlag = 6 end\nfunction rg_i() RFlag = 7 RNew = 1 end\nfunction rg_j() RNew = 2 end\n"),
     ] },
     Block { name: "self-return-types", parts: &[
         p("local SR = {}\nfunction SR.make() return { v = 1, w = { z = 2 } } end\nfunction SR.tbl() return SR end\nM.sr = SR\nGSR = SR\n"),
@@ -184,17 +195,30 @@ enum Mode {
     Seq,
 }
 
+/// where a file lives: `name` of a file entry is `x.lua` (under the main workspace root), `outside:x.lua` (a path
+/// outside every root: no module entry), `untitled:Name` (a document without a path, `update_file_by_uri`) or
+/// `remote:x.lua` (`update_remote_file_by_uri`).  The module name of the last three is "" (none expected).
+#[derive(Clone, Copy, PartialEq, Debug)]
+enum Reloc {
+    Outside,
+    Untitled,
+    Remote,
+}
+const MARKERS: [&str; 4] = ["MKAAZ", "MKBBZ", "MKCCZ", "MKDDZ"];
+
 struct Case {
     k: usize,
     mode: Mode,
     /// (file name, module name, text) in analysis order
     files: Vec<(String, String, String)>,
+    /// per file: text that only this file contains (in doc comments), "" = none
+    markers: Vec<String>,
     /// description: block name -> role placement
     desc: String,
 }
 
 /// place `blocks[i]`'s roles on the files given by `placement[i]` (one file slot per role), build the texts
-fn build_case(k: usize, mode: Mode, n_files: usize, chosen: &[(usize, Vec<usize>)], order: &[usize]) -> Case {
+fn build_case(k: usize, mode: Mode, n_files: usize, chosen: &[(usize, Vec<usize>)], order: &[usize], reloc: Option<(usize, Reloc)>) -> Case {
     let mut heads: Vec<Vec<&'static str>> = vec![Vec::new(); n_files];
     let mut bodies: Vec<String> = vec![String::new(); n_files];
     let mut desc = Vec::new();
@@ -215,6 +239,7 @@ fn build_case(k: usize, mode: Mode, n_files: usize, chosen: &[(usize, Vec<usize>
                 let slot_r = placement.get(r).copied().unwrap_or(placement[0]);
                 body = body.replace(&format!("{{m{r}}}"), MODULE_NAMES[slot_r]);
             }
+            body = body.replace("{mk}", MARKERS[*slot]);
             bodies[*slot].push_str(&body);
             d.push_str(&format!("{}{}", if role > 0 { "," } else { "" }, FILE_NAMES[*slot]));
         }
@@ -222,6 +247,7 @@ fn build_case(k: usize, mode: Mode, n_files: usize, chosen: &[(usize, Vec<usize>
         desc.push(d);
     }
     let mut files = Vec::new();
+    let mut markers = Vec::new();
     for &slot in order {
         let mut text = String::new();
         for h in &heads[slot] {
@@ -230,18 +256,39 @@ fn build_case(k: usize, mode: Mode, n_files: usize, chosen: &[(usize, Vec<usize>
         text.push_str("local M = {}\n");
         text.push_str(&bodies[slot]);
         text.push_str("return M\n");
-        files.push((FILE_NAMES[slot].to_string(), MODULE_NAMES[slot].to_string(), text));
+        let stem = FILE_NAMES[slot].replace('/', "_");
+        let (name, module) = match reloc {
+            Some((s, Reloc::Outside)) if s == slot => (format!("outside:{stem}"), String::new()),
+            Some((s, Reloc::Untitled)) if s == slot => (format!("untitled:Untitled-{}", MODULE_NAMES[slot]), String::new()),
+            Some((s, Reloc::Remote)) if s == slot => (format!("remote:{stem}"), String::new()),
+            _ => (FILE_NAMES[slot].to_string(), MODULE_NAMES[slot].to_string()),
+        };
+        markers.push(if text.contains(MARKERS[slot]) { MARKERS[slot].to_string() } else { String::new() });
+        files.push((name, module, text));
     }
-    Case { k, mode, files, desc: format!("{mode:?} order={:?} {}", order.iter().map(|s| FILE_NAMES[*s]).collect::<Vec<_>>(), desc.join(" ")) }
+    let names: Vec<String> = files.iter().map(|f| f.0.clone()).collect();
+    Case { k, mode, files, markers, desc: format!("{mode:?} order={names:?} {}", desc.join(" ")) }
 }
 
 /// number of systematic (seed-independent) cases: every block alone x (roles on files in declaration order | reversed)
 /// x (analysis order forward | backward) x (Batch | Seq)
 fn n_systematic() -> usize {
-    BLOCKS.len() * 8
+    BLOCKS.len() * 8 + RELOC_BLOCKS.len() * 3
 }
+/// blocks that are also run with one file outside every root / as an `untitled:` document / as a remote document
+const RELOC_BLOCKS: [&str; 8] = ["globals-same-name", "globals-repeated-in-one-file", "members-global-class", "partial-class-two-supers", "shared-type-property", "alias-enum-generic", "operator-overload", "properties"];
 
 fn gen_case(seed: u64, k: usize) -> Case {
+    if k >= BLOCKS.len() * 8 && k < n_systematic() {
+        let r = k - BLOCKS.len() * 8;
+        let b = BLOCKS.iter().position(|b| b.name == RELOC_BLOCKS[r / 3]).expect("reloc block");
+        let roles = BLOCKS[b].parts.len();
+        let n_files = roles.max(2);
+        // Outside: the file of role 0, batch; Untitled: the file of role 1, batch; Remote: the file of role 0, seq
+        let (kind, slot, mode) = [(Reloc::Outside, 0, Mode::Batch), (Reloc::Untitled, 1, Mode::Batch), (Reloc::Remote, 0, Mode::Seq)][r % 3];
+        let order: Vec<usize> = (0..n_files).collect();
+        return build_case(k, mode, n_files, &[(b, (0..roles).collect())], &order, Some((slot, kind)));
+    }
     if k < n_systematic() {
         let b = k / 8;
         let v = k % 8;
@@ -261,7 +308,7 @@ fn gen_case(seed: u64, k: usize) -> Case {
             order.reverse();
         }
         let mode = if v & 4 == 4 { Mode::Seq } else { Mode::Batch };
-        return build_case(k, mode, n_files, &[(b, placement)], &order);
+        return build_case(k, mode, n_files, &[(b, placement)], &order, None);
     }
     let mut rng = Rng(seed.wrapping_mul(0x2545_F491_4F6C_DD1D) ^ (k as u64).wrapping_mul(0xD6E8_FEB8_6659_FD93));
     rng.next();
@@ -287,7 +334,8 @@ fn gen_case(seed: u64, k: usize) -> Case {
         order.swap(i, rng.below(i + 1));
     }
     let mode = if rng.below(3) == 0 { Mode::Seq } else { Mode::Batch };
-    build_case(k, mode, n_files, &chosen, &order)
+    let reloc = if rng.below(4) == 0 { Some((rng.below(n_files), [Reloc::Outside, Reloc::Untitled, Reloc::Remote][rng.below(3)])) } else { None };
+    build_case(k, mode, n_files, &chosen, &order, reloc)
 }
 
 // ------------------------------------------------------------------------------------------------------ canon
@@ -371,6 +419,15 @@ fn parse_groups(lines: &[(usize, String)], pos: &mut usize, depth: usize) -> Vec
                 }
                 break;
             } else {
+                // an empty map / set / list is printed inline (`field: {},`): the same opener as a filled one
+                let trimmed = head.trim_end_matches(',');
+                if trimmed.ends_with("{}") || trimmed.ends_with("[]") {
+                    let opener = trimmed[..trimmed.len() - 1].to_string();
+                    if is_collection_opener(&opener) {
+                        g.segs.push(Seg { head: opener, kids: Vec::new(), collection: true });
+                        break;
+                    }
+                }
                 g.segs.push(Seg { head, kids: Vec::new(), collection: false });
                 break;
             }
@@ -455,7 +512,7 @@ fn unify_dead(kids: &mut [Group], dead: &[FileId]) {
     }
 }
 
-fn normalise(kids: &mut Vec<Group>, path: &str, rename: Option<(u32, u32)>, ignore: &[String]) {
+fn normalise(kids: &mut Vec<Group>, path: &str, rename: Option<(u32, u32)>, mask_ids: bool, ignore: &[String]) {
     kids.retain(|g| {
         let sub = match g.label() {
             Some(l) if path.is_empty() => l.to_string(),
@@ -483,7 +540,9 @@ fn normalise(kids: &mut Vec<Group>, path: &str, rename: Option<(u32, u32)>, igno
             None => path.to_string(),
         };
         for seg in g.segs.iter_mut() {
-            let mut line = mask_numbers(&mask_numbers(&seg.head, "LuaPropertyId"), "ModuleNodeId");
+            // allocator-dependent ids: masked only when two different allocation histories are compared (RESTORE);
+            // within one analysis the surviving entries keep their ids, which is what pairs a changed entry
+            let mut line = if mask_ids { mask_numbers(&mask_numbers(&seg.head, "LuaPropertyId"), "ModuleNodeId") } else { seg.head.clone() };
             if let Some((new, old)) = rename {
                 line = line.replace(&format!("FileId({new})"), &format!("FileId({old})"));
                 if path == "vfs.file_id_map" {
@@ -498,13 +557,16 @@ fn normalise(kids: &mut Vec<Group>, path: &str, rename: Option<(u32, u32)>, igno
                 }
             }
             seg.head = line;
-            normalise(&mut seg.kids, &sub, rename, ignore);
+            normalise(&mut seg.kids, &sub, rename, mask_ids, ignore);
         }
     }
 }
 
 /// the database dump as a tree: children of the root = the indexes
 fn snap(a: &EmmyLuaAnalysis, rename: Option<(u32, u32)>, ignore: &[String]) -> Vec<Group> {
+    snap_with(a, rename, rename.is_some(), ignore)
+}
+fn snap_with(a: &EmmyLuaAnalysis, rename: Option<(u32, u32)>, mask_ids: bool, ignore: &[String]) -> Vec<Group> {
     let lines = collapse(&format!("{:#?}", a.compilation.get_db()));
     let mut pos = 0;
     let mut root = parse_groups(&lines, &mut pos, 0);
@@ -512,7 +574,7 @@ fn snap(a: &EmmyLuaAnalysis, rename: Option<(u32, u32)>, ignore: &[String]) -> V
         setup_failed("the Debug dump of DbIndex does not have the expected shape");
     }
     let mut kids = std::mem::take(&mut root[0].segs[0].kids);
-    normalise(&mut kids, "", rename, ignore);
+    normalise(&mut kids, "", rename, mask_ids, ignore);
     kids
 }
 
@@ -529,9 +591,19 @@ enum Class {
     RestoreDiff,
 }
 
+/// TRACE line / entry absent afterwards / entry only there afterwards / entry there before and after, content differs
+#[derive(Clone, Copy, PartialEq, Debug)]
+enum Kind {
+    Line,
+    Loss,
+    Gain,
+    Changed,
+}
+
 struct Violation {
     oracle: &'static str,
     class: Class,
+    kind: Kind,
     removed: String,
     /// `index.field`
     field: String,
@@ -565,7 +637,7 @@ impl Violation {
 }
 
 struct Ids {
-    /// every id the removed file has had
+    /// every id the removed file has had, and the text only the removed file contained
     dead: Vec<String>,
     /// ids of files that are in the analysis
     present: Vec<String>,
@@ -573,6 +645,12 @@ struct Ids {
 impl Ids {
     fn new(dead: &[FileId], present: &[FileId]) -> Ids {
         Ids { dead: dead.iter().map(|f| format!("FileId({})", f.id)).collect(), present: present.iter().map(|f| format!("FileId({})", f.id)).collect() }
+    }
+    fn with_marker(mut self, marker: &str) -> Ids {
+        if !marker.is_empty() {
+            self.dead.push(marker.to_string());
+        }
+        self
     }
     fn has_dead(&self, s: &str) -> bool {
         self.dead.iter().any(|t| s.contains(t.as_str()))
@@ -637,7 +715,7 @@ impl Walk<'_> {
 
 /// TRACE: every line of the dump that still names the removed file
 fn trace(tree: &[Group], ids: &Ids, name: &str, id: FileId, out: &mut Vec<Violation>) {
-    let removed_path = format!("{ROOT}/{name}");
+    let removed_path = path_text(name);
     let w = Walk { ids, removed_path: &removed_path, removed_id: id.id };
     let removed = format!("{name} (id {})", id.id);
     for index in tree {
@@ -649,7 +727,7 @@ fn trace(tree: &[Group], ids: &Ids, name: &str, id: FileId, out: &mut Vec<Violat
             let entries: Vec<&Group> = if field.segs.iter().any(|s| s.collection) { field.segs.iter().flat_map(|s| s.kids.iter()).collect() } else { vec![field] };
             for e in entries {
                 w.visit(e, &dotted, false, true, false, &mut |_, line, class| {
-                    out.push(Violation { oracle: "TRACE", class, removed: removed.clone(), field: dotted.clone(), sub: String::new(), what: format!("{line} in {}", short(&e.canon(), 360)), detail: String::from("after remove_file_by_uri the dump still names the removed file") });
+                    out.push(Violation { oracle: "TRACE", class, kind: Kind::Line, removed: removed.clone(), field: dotted.clone(), sub: String::new(), what: format!("{line} in {}", short(&e.canon(), 360)), detail: String::from("after remove_file_by_uri the dump still names the removed file") });
                 });
             }
         }
@@ -688,7 +766,12 @@ fn report_diff(cx: &DiffCtx, path: &[String], attributed: bool, before: Option<&
         }
         what.push_str(&format!("+ {}", short(&a.canon(), 300)));
     }
-    out.push(Violation { oracle: cx.oracle, class, removed: cx.removed.clone(), field, sub, what, detail: cx.what.to_string() });
+    let kind = match (before.is_some(), after.is_some()) {
+        (true, false) => Kind::Loss,
+        (false, true) => Kind::Gain,
+        _ => Kind::Changed,
+    };
+    out.push(Violation { oracle: cx.oracle, class, kind, removed: cx.removed.clone(), field, sub, what, detail: cx.what.to_string() });
 }
 
 /// what pairs two differing siblings: the key of a map entry / the name of a field, else the opener line
@@ -767,13 +850,33 @@ fn compare(cx: &DiffCtx, before: &[Group], after: &[Group], out: &mut Vec<Violat
 }
 
 // --------------------------------------------------------------------------------------------------- scenario
-macro_rules! uri {
-    ($name:expr) => {
-        match file_path_to_uri(&PathBuf::from(format!("{ROOT}/{}", $name))) {
-            Some(u) => u,
-            None => setup_failed(&format!("no uri for {}", $name)),
-        }
+const OUTSIDE_ROOT: &str = "/vp_c10t_outside";
+fn uri_of(name: &str) -> Uri {
+    let by_path = |p: String| match file_path_to_uri(&PathBuf::from(&p)) {
+        Some(u) => u,
+        None => setup_failed(&format!("no uri for {p}")),
     };
+    if let Some(rest) = name.strip_prefix("outside:") {
+        by_path(format!("{OUTSIDE_ROOT}/{rest}"))
+    } else if name.starts_with("untitled:") {
+        Uri::from_str(name).unwrap_or_else(|_| setup_failed(&format!("no uri for {name}")))
+    } else if let Some(rest) = name.strip_prefix("remote:") {
+        Uri::from_str(&format!("vp-c10t-remote://host/{rest}")).unwrap_or_else(|_| setup_failed(&format!("no uri for {name}")))
+    } else {
+        by_path(format!("{ROOT}/{name}"))
+    }
+}
+/// the text by which the dump would name the file (path / uri)
+fn path_text(name: &str) -> String {
+    if let Some(rest) = name.strip_prefix("outside:") {
+        format!("{OUTSIDE_ROOT}/{rest}")
+    } else if name.starts_with("untitled:") {
+        name.to_string()
+    } else if let Some(rest) = name.strip_prefix("remote:") {
+        format!("vp-c10t-remote://host/{rest}")
+    } else {
+        format!("{ROOT}/{name}")
+    }
 }
 
 fn setup_failed(why: &str) -> ! {
@@ -791,37 +894,39 @@ fn fresh(files: &[&(String, String, String)], mode: Mode) -> (EmmyLuaAnalysis, V
         Mode::Batch => {
             // what update_files_by_uri does, with a fixed order of the ids (it goes through a std HashSet)
             for (name, _, text) in files {
-                ids.push(a.compilation.get_db_mut().get_vfs_mut().set_file_content(&uri!(name), Some(text.clone())));
+                let vfs = a.compilation.get_db_mut().get_vfs_mut();
+                ids.push(if name.starts_with("remote:") { vfs.set_remote_file_content(&uri_of(name), Some(text.clone())) } else { vfs.set_file_content(&uri_of(name), Some(text.clone())) });
             }
             a.compilation.remove_index(ids.clone());
             a.compilation.update_index(ids.clone());
         }
         Mode::Seq => {
             for (name, _, text) in files {
-                match a.update_file_by_uri(&uri!(name), Some(text.clone())) {
-                    Some(id) => ids.push(id),
-                    None => setup_failed(&format!("no file id for {name}")),
-                }
+                ids.push(add(&mut a, name, text));
             }
         }
     }
     for (i, (name, module, _)) in files.iter().enumerate() {
         match a.compilation.get_db().get_module_index().get_module(ids[i]) {
             Some(info) if info.full_module_name == *module => {}
-            other => setup_failed(&format!("{name} registered as module {:?}, expected {module}", other.map(|m| m.full_module_name.clone()))),
+            None if module.is_empty() => {}
+            other => setup_failed(&format!("{name} registered as module {:?}, expected {module:?}", other.map(|m| m.full_module_name.clone()))),
         }
     }
     (a, ids)
 }
 
 fn add(a: &mut EmmyLuaAnalysis, name: &str, text: &str) -> FileId {
-    match a.update_file_by_uri(&uri!(name), Some(text.to_string())) {
+    if name.starts_with("remote:") {
+        return a.update_remote_file_by_uri(&uri_of(name), Some(text.to_string()));
+    }
+    match a.update_file_by_uri(&uri_of(name), Some(text.to_string())) {
         Some(id) => id,
         None => setup_failed("no file id"),
     }
 }
 fn remove(a: &mut EmmyLuaAnalysis, name: &str, id: FileId) {
-    if a.remove_file_by_uri(&uri!(name)) != Some(id) {
+    if a.remove_file_by_uri(&uri_of(name)) != Some(id) {
         setup_failed(&format!("remove_file_by_uri({name}) did not return the id the file was added under"));
     }
 }
@@ -849,7 +954,8 @@ fn run_case(case: &Case, ignore: &[String]) -> Vec<Violation> {
         let id = add(&mut a, name, text);
         remove(&mut a, name, id);
         let t1 = snap(&a, None, ignore);
-        let ids = Ids::new(&[id], &other_ids);
+        let marker = &case.markers[fi];
+        let ids = Ids::new(&[id], &other_ids).with_marker(marker);
         trace(&t1, &ids, name, id, &mut out);
         let cx = DiffCtx { keys: Default::default(), oracle: "NEVER-HAD", removed: format!("{name} (id {})", id.id), what: "workspace without the file -> add it -> remove it, against the dump before adding it", ids: &ids };
         compare(&cx, &t0, &t1, &mut out);
@@ -859,11 +965,11 @@ fn run_case(case: &Case, ignore: &[String]) -> Vec<Violation> {
         let (mut a, all_ids) = fresh(&all, case.mode);
         let id0 = all_ids[fi];
         let other_ids: Vec<FileId> = all_ids.iter().copied().filter(|i| *i != id0).collect();
-        let s0 = snap(&a, None, ignore);
+        let s0 = snap_with(&a, None, true, ignore);
         remove(&mut a, name, id0);
         let s1 = snap(&a, None, ignore);
         let mut dead = vec![id0];
-        trace(&s1, &Ids::new(&dead, &other_ids), name, id0, &mut out);
+        trace(&s1, &Ids::new(&dead, &other_ids).with_marker(marker), name, id0, &mut out);
         for round in 0..5 {
             let id = add(&mut a, name, text);
             if round == 0 && case.mode == Mode::Batch {
@@ -878,12 +984,12 @@ fn run_case(case: &Case, ignore: &[String]) -> Vec<Violation> {
                 continue;
             }
             let s3 = snap(&a, None, ignore);
-            let ids = Ids::new(&dead, &other_ids);
+            let ids = Ids::new(&dead, &other_ids).with_marker(marker);
             trace(&s3, &ids, name, id, &mut out);
             let (mut s1u, mut s3u) = (s1.clone(), s3);
             unify_dead(&mut s1u, &dead);
             unify_dead(&mut s3u, &dead);
-            let ids = Ids { dead: vec!["FileId(dead)".to_string()], present: ids.present };
+            let ids = Ids { dead: vec!["FileId(dead)".to_string()], present: ids.present }.with_marker(marker);
             let what = format!("all files analysed -> remove it -> {} x (add it; remove it), against the dump after the first removal", round + 1);
             let cx = DiffCtx { keys: Default::default(), oracle: "GROWTH", removed: format!("{name} (id {})", id.id), what: &what, ids: &ids };
             if compare(&cx, &s1u, &s3u, &mut out) {
@@ -903,7 +1009,7 @@ fn run_case(case: &Case, ignore: &[String]) -> Vec<Violation> {
             }
             let s4 = snap(&a, None, ignore);
             let mut again = Vec::new();
-            trace(&s4, &Ids::new(&dead, &other_ids), name, *dead.last().unwrap(), &mut again);
+            trace(&s4, &Ids::new(&dead, &other_ids).with_marker(marker), name, *dead.last().unwrap(), &mut again);
             // (lines that were reported as leaks before are not repeated)
             let reported: Vec<String> = out[first..].iter().filter(|v| v.oracle == "TRACE" && v.class == Class::Leak).map(|v| v.signature()).collect();
             for mut v in again.into_iter().filter(|v| !reported.contains(&v.signature())) {
@@ -940,9 +1046,15 @@ fn load_known(path: &str) -> Vec<Known> {
     }
     out
 }
+/// A pattern that starts with `- ` pins a PURE LOSS (the entry is absent afterwards), one that starts with `+ ` a pure
+/// gain; neither matches the halves of a CHANGED entry (`- before   + after`: present before and after with a
+/// different content -- a different defect).  Any other pattern matches whatever the kind.
 fn is_known(v: &Violation, known: &[Known]) -> bool {
     let masked = mask_digits(&v.what);
-    known.iter().any(|k| (k.oracle == "*" || k.oracle == v.oracle) && k.field == v.field && masked.contains(&mask_digits(&k.text)))
+    known.iter().any(|k| {
+        let kind_ok = if k.text.starts_with("- ") { v.kind == Kind::Loss } else if k.text.starts_with("+ ") { v.kind == Kind::Gain } else { true };
+        kind_ok && (k.oracle == "*" || k.oracle == v.oracle) && k.field == v.field && masked.contains(&mask_digits(&k.text))
+    })
 }
 
 struct Opts {
@@ -975,7 +1087,7 @@ fn report(case: &Case, seed: u64, vs: &[Violation], opts: &Opts, seen: &mut Vec<
         }
         if tag != "FOUND" || !first_only || failing == 1 {
             seen.push(sig);
-            println!("{tag} case={} seed={seed} oracle={} class={:?} removed={} field={}{} :: `{}` :: {} :: workspace: {}", case.k, v.oracle, v.class, v.removed, v.field, if v.sub.is_empty() { String::new() } else { format!(" sub={}", v.sub) }, v.what, v.detail, case.desc);
+            println!("{tag} case={} seed={seed} oracle={} class={:?} kind={:?} removed={} field={}{} :: `{}` :: {} :: workspace: {}", case.k, v.oracle, v.class, v.kind, v.removed, v.field, if v.sub.is_empty() { String::new() } else { format!(" sub={}", v.sub) }, v.what, v.detail, case.desc);
         }
     }
     (failing, known, stale)
@@ -983,7 +1095,7 @@ fn report(case: &Case, seed: u64, vs: &[Violation], opts: &Opts, seen: &mut Vec<
 
 fn print_workspace(case: &Case) {
     for (name, module, text) in &case.files {
-        println!("  --- {ROOT}/{name} (module {module})");
+        println!("  --- {} (module {module:?})", path_text(name));
         for l in text.lines() {
             println!("  | {l}");
         }
@@ -1016,7 +1128,8 @@ fn dir_case(dir: &str, mode: Mode) -> Case {
     if files.is_empty() {
         setup_failed("no .lua files in the given directory");
     }
-    Case { k: 0, mode, files, desc: format!("{mode:?} files of {}", dir.display()) }
+    let markers = vec![String::new(); files.len()];
+    Case { k: 0, mode, files, markers, desc: format!("{mode:?} files of {}", dir.display()) }
 }
 
 const DEFAULT_COUNT: u64 = 210;
